@@ -1,11 +1,152 @@
 """C02 — a frozen-phonon ensemble equals independent per-configuration simulations."""
 from __future__ import annotations
 
-from ..rules import loopstate
+import ast
+
+from ..cfg import DataFlow
+from ..model import call_name, dotted, norm_text, walk_no_nested
+from ..rules import loopstate, sameslice
+
+PH = "abtem.inelastic.phonons"
+RANDOM_DISTS = {"normal", "uniform", "random", "standard_normal", "rand", "randn", "randint", "choice", "poisson",
+                "shuffle", "permutation", "integers"}
 
 
 def run(ctx) -> None:
     repo = ctx.repo
     ctx.rule("R-LOOPSTATE", loopstate.__doc__.split("\n\n", 1)[1])
+    ctx.rule("R-SEEDONLY", "every random draw in FrozenPhonons.randomize comes from a generator constructed in the "
+             "same call by default_rng(<expression data-dependent on self.seed>); no draw from the global numpy/random "
+             "state and no unseeded generator — otherwise configurations depend on what ran before, on chunking or on "
+             "evaluation order")
+    ctx.rule("R-FRESHATOMS", "randomize displaces a fresh copy of the atoms (the in-place `positions[...] +=` is "
+             "dominated by `atoms = atoms.copy()`); displacing the shared atoms would accumulate displacements across "
+             "configurations, i.e. make configuration k depend on the processing order")
+    ctx.rule("R-SEEDPART", "blocks of a partitioned FrozenPhonons are rebuilt with seed=<the block's slice of the "
+             "seeds> and num_configs=len(<that slice>); _partition_args cuts self.seed with the loop's own range in "
+             "both the lazy and the eager arm")
+    ctx.rule("R-MEANAXES", "reduce_ensemble selects exactly the axes whose metadata carries _ensemble_mean and "
+             "returns self.mean over those axes")
+    ctx.undecided("numerical equality with independent runs; sigma handling; that the mean equals the arithmetic mean")
+
     for fn in ("multislice_and_detect", "transition_potential_multislice_and_detect"):
         loopstate.check(ctx, repo.function("abtem.multislice", fn))
+
+    # ---------------- R-SEEDONLY / R-FRESHATOMS
+    rz = repo.method(PH, "FrozenPhonons", "randomize")
+    df = DataFlow(rz.node)
+    gens = {}
+    for st in walk_no_nested(rz.node):
+        if isinstance(st, ast.Assign) and isinstance(st.value, ast.Call) and (call_name(st.value) or "").endswith(
+                "default_rng") and isinstance(st.targets[0], ast.Name):
+            gens[st.targets[0].id] = st
+    ctx.require(len(gens) >= 1, "FrozenPhonons.randomize: no default_rng(...) generator found")
+    for name, st in gens.items():
+        call = st.value
+        seed = call.args[0] if call.args else next((k.value for k in call.keywords if k.arg == "seed"), None)
+        node = df.cfg.node_of(st)
+        dep = seed is not None and "self.seed" in df.backward_slice(node.idx, seed).external | {
+            d for d in df.backward_slice(node.idx, seed).visited}
+        ctx.check(dep, "R-SEEDONLY", f"{rz.qualname}:generator {name}", rz.loc(st),
+                  f"generator seeded from {norm_text(seed) if seed is not None else '-'}",
+                  f"generator `{norm_text(st)}` is not seeded from self.seed: configurations are not determined by "
+                  "the seeds alone", key_detail="seed")
+    draws = 0
+    for c in walk_no_nested(rz.node):
+        if isinstance(c, ast.Call) and isinstance(c.func, ast.Attribute) and c.func.attr in RANDOM_DISTS:
+            recv = dotted(c.func.value)
+            if recv in gens:
+                draws += 1
+                ctx.ok("R-SEEDONLY", f"{rz.qualname}:draw {norm_text(c)[:50]}", rz.loc(c), "draw from the seeded generator")
+            elif recv in ("np.random", "numpy.random", "random", "xp.random"):
+                draws += 1
+                ctx.violation("R-SEEDONLY", f"{rz.qualname}:draw {norm_text(c)[:50]}", rz.loc(c),
+                              f"`{norm_text(c)[:60]}` draws from the global random state: the configuration depends on "
+                              "everything that drew before it (chunking, evaluation order, other configurations)",
+                              key_detail="global")
+    ctx.require(draws >= 1, "FrozenPhonons.randomize: no random draw recognised")
+    muts = []
+    for st in walk_no_nested(rz.node):
+        tgt = None
+        if isinstance(st, ast.AugAssign):
+            tgt = st.target
+        elif isinstance(st, ast.Assign):
+            tgt = st.targets[0]
+        if tgt is not None and isinstance(tgt, (ast.Subscript, ast.Attribute)):
+            base = tgt
+            while isinstance(base, (ast.Subscript, ast.Attribute)):
+                base = base.value
+            if isinstance(base, ast.Name) and ("positions" in ast.unparse(tgt) or "cell" in ast.unparse(tgt)):
+                muts.append((st, base.id))
+        if isinstance(st, ast.Expr) and isinstance(st.value, ast.Call) and isinstance(st.value.func, ast.Attribute) \
+                and st.value.func.attr in ("set_positions", "translate", "rattle", "wrap", "set_scaled_positions") \
+                and isinstance(st.value.func.value, ast.Name):
+            muts.append((st, st.value.func.value.id))
+    ctx.require(len(muts) >= 1, "FrozenPhonons.randomize: no displacement of positions recognised")
+    aparam = rz.positional_params[1]
+    for st, base in muts:
+        node = df.cfg.node_of(st)
+        rd = df.reaching(node.idx, base)
+        fresh = bool(rd) and all(
+            d.kind == "assign" and isinstance(d.value, ast.Call) and isinstance(d.value.func, ast.Attribute)
+            and d.value.func.attr == "copy" for d in rd if d.strong) and any(d.strong for d in rd) and not any(
+            d.kind == "param" for d in rd)
+        ctx.check(fresh, "R-FRESHATOMS", f"{rz.qualname}:{norm_text(st)[:50]}", rz.loc(st),
+                  f"`{base}` is a fresh copy when it is displaced",
+                  f"`{norm_text(st)[:60]}` displaces `{base}`, which may still be the caller's/shared atoms object "
+                  "(no dominating .copy()): displacements accumulate over configurations", key_detail="fresh")
+
+    # ---------------- R-SEEDPART
+    fpa = repo.method(PH, "FrozenPhonons", "_from_partitioned_args_func")
+    ctors = [c for c in walk_no_nested(fpa.node) if isinstance(c, ast.Call) and dotted(c.func) in ("cls", "FrozenPhonons")]
+    ctx.require(len(ctors) == 1, "FrozenPhonons._from_partitioned_args_func: constructor call not found")
+    kws = {k.arg: k.value for k in ctors[0].keywords if k.arg}
+    seedv = kws.get("seed")
+    okp = (isinstance(seedv, ast.Name) and "num_configs" in kws and norm_text(kws["num_configs"]) == f"len({seedv.id})")
+    if okp:
+        dfp = DataFlow(fpa.node)
+        sl = dfp.backward_slice(dfp.cfg.node_of(_stmt_of(fpa.node, ctors[0])).idx, seedv)
+        okp = "args" in sl.params
+    ctx.check(okp, "R-SEEDPART", f"{fpa.qualname}:rebuild", fpa.loc(ctors[0]),
+              "block rebuilt with seed=<block seeds>, num_configs=len(<block seeds>)",
+              f"block rebuilt by {norm_text(ctors[0])[:90]}: seed/num_configs do not come from the block's own seeds",
+              key_detail="rebuild")
+    sameslice.check(ctx, repo.method(PH, "FrozenPhonons", "_partition_args"), rule="R-SEEDPART")
+    sameslice.check(ctx, repo.method(PH, "AtomsEnsemble", "_partition_args"), rule="R-SEEDPART")
+
+    # ---------------- R-MEANAXES
+    re_ = repo.method("abtem.measurements", "BaseMeasurements", "reduce_ensemble")
+    rets = [r for r in walk_no_nested(re_.node) if isinstance(r, ast.Return) and r.value is not None]
+    meanrets = [r for r in rets if isinstance(r.value, ast.Call) and call_name(r.value) == "self.mean"]
+    ctx.require(len(meanrets) == 1, "reduce_ensemble: `return self.mean(...)` not found")
+    mr = meanrets[0]
+    axarg = mr.value.args[0] if mr.value.args else next((k.value for k in mr.value.keywords if k.arg == "axis"), None)
+    dfr = DataFlow(re_.node)
+    okm = False
+    detail = ""
+    if isinstance(axarg, ast.Name):
+        d = dfr.single_def(dfr.cfg.node_of(mr).idx, axarg.id)
+        if d is not None and d.value is not None:
+            txt = norm_text(d.value)
+            detail = txt
+            gen = [g for g in ast.walk(d.value) if isinstance(g, (ast.GeneratorExp, ast.ListComp))]
+            if gen:
+                g = gen[0]
+                it = g.generators[0]
+                cond = " and ".join(norm_text(c) for c in it.ifs)
+                okm = (call_name(it.iter) == "enumerate" and norm_text(it.iter.args[0]) == "self.axes_metadata"
+                       and isinstance(it.target, ast.Tuple) and isinstance(g.elt, ast.Name)
+                       and g.elt.id == it.target.elts[0].id and "_ensemble_mean" in cond
+                       and f"{it.target.elts[1].id}._ensemble_mean" in cond and "not " not in cond)
+    ctx.check(okm, "R-MEANAXES", f"{re_.qualname}", re_.loc(mr), "mean over exactly the _ensemble_mean axes",
+              f"reduce_ensemble averages over {detail or norm_text(axarg) if axarg is not None else '?'} — not the "
+              "axes flagged _ensemble_mean", key_detail="axes")
+
+
+def _stmt_of(func: ast.FunctionDef, node: ast.AST) -> ast.stmt:
+    for st in ast.walk(func):
+        if isinstance(st, ast.stmt) and not isinstance(st, (ast.FunctionDef, ast.If, ast.For, ast.While, ast.With,
+                                                           ast.Try)):
+            if any(n is node for n in ast.walk(st)):
+                return st
+    raise LookupError
